@@ -441,6 +441,57 @@ func c15StartReader(p *vPeer) {
 	}()
 }
 
+// Directed scenario "the candidate keeps talking, the response is late": a genuine newest CID record
+// from cand1 makes the EUT challenge cand1 at t0; the peer's matching path_response is kept back;
+// further genuine newest records arrive from cand1 every 300 ms (each < 1 s after the previous one);
+// the response is delivered from cand1 at t0+at. For at < 1 s the address must change (positive
+// control), for at >= 1 s it must not: "in time" is measured from the challenge, not from the last
+// record of the candidate.
+func c15DirectedLate(r *c15Runner, rng *vRand, at time.Duration) {
+	const gap = 300 * time.Millisecond
+	n := int(at/gap) + 2
+	for i := 0; i < n; i++ {
+		r.peerWrite("", rng)
+	}
+	if len(r.pool) < n || r.res.Err != "" {
+		r.res.Err = "directed: pool too small " + r.res.Err
+
+		return
+	}
+	r.deliver(0, "cand1") // t0: challenge to cand1 (when IDs and RRC are in use)
+	var chal *c15Emit
+	for _, e := range r.emits {
+		if e.Type == "chal" && e.To == "cand1" {
+			chal = e
+		}
+	}
+	respIdx := -1
+	if chal != nil {
+		r.forward(chal, r.eut.Name)
+		for i, p := range r.pool {
+			if p.Kind == "resp" && p.Cookie == chal.Cookie {
+				respIdx = i
+			}
+		}
+	}
+	elapsed := time.Duration(0)
+	next := 1
+	for elapsed+gap < at {
+		r.tick(gap)
+		elapsed += gap
+		r.deliver(next, "cand1")
+		next++
+	}
+	if at > elapsed {
+		r.tick(at - elapsed)
+	}
+	if respIdx >= 0 {
+		r.deliver(respIdx, "cand1")
+	}
+	r.eutSend() // where does ordinary traffic go now
+	r.deliver(next, "cand1")
+}
+
 func c15Gen(n int) func() []byte {
 	if n < 0 {
 		return nil
@@ -449,7 +500,7 @@ func c15Gen(n int) func() []byte {
 	return RandomCIDGenerator(n)
 }
 
-func c15Run(t *testing.T, rng *vRand, suite CipherSuiteID, v13, noRRC bool, lenClient, lenServer int, eutName string, nOps int) c15Case {
+func c15Run(t *testing.T, rng *vRand, suite CipherSuiteID, v13, noRRC bool, lenClient, lenServer int, eutName string, nOps int, directed time.Duration) c15Case {
 	t.Helper()
 	ccfg, scfg := vPSKPair(suite)
 	if v13 {
@@ -543,6 +594,13 @@ func c15Run(t *testing.T, rng *vRand, suite CipherSuiteID, v13, noRRC bool, lenC
 		time.Second - 1, time.Second, time.Second + 1, 1001 * time.Millisecond, 2 * time.Second,
 	}
 	script := ""
+	if directed > 0 {
+		c15DirectedLate(r, rng, directed)
+		res.Script = fmt.Sprintf("late-response@%s", directed)
+		res.Variant += "-directed"
+
+		return res
+	}
 	for i := 0; i < 3; i++ {
 		r.peerWrite("", rng)
 	}
@@ -627,12 +685,13 @@ func TestVerifC15E2E(t *testing.T) {
 	lens := []int{0, 1, 4, 8}
 	suites := []CipherSuiteID{TLS_PSK_WITH_AES_128_GCM_SHA256, TLS_PSK_WITH_AES_128_CCM_8, TLS_PSK_WITH_AES_128_CBC_SHA256}
 	type job struct {
-		suite  CipherSuiteID
-		v13    bool
-		norrc  bool
-		lc, ls int
-		eut    string
-		n      int
+		suite    CipherSuiteID
+		v13      bool
+		norrc    bool
+		lc, ls   int
+		eut      string
+		n        int
+		directed time.Duration
 	}
 	var jobs []job
 	reps := 2
@@ -644,7 +703,7 @@ func TestVerifC15E2E(t *testing.T) {
 		for _, lc := range lens {
 			for _, ls := range lens {
 				for _, eut := range names {
-					jobs = append(jobs, job{suites[rng.intn(len(suites))], rep%2 == 1, false, lc, ls, eut, 20 + rng.intn(40)})
+					jobs = append(jobs, job{suites[rng.intn(len(suites))], rep%2 == 1, false, lc, ls, eut, 20 + rng.intn(40), 0})
 				}
 			}
 		}
@@ -652,7 +711,7 @@ func TestVerifC15E2E(t *testing.T) {
 		// exceeds three times a small record (Reserve refuses, Cancel path)
 		for _, p := range [][2]int{{-1, 4}, {4, -1}, {-1, -1}, {1, 120}, {120, 1}, {120, 120}, {0, 120}} {
 			for _, eut := range names {
-				jobs = append(jobs, job{suites[rng.intn(len(suites))], rep%2 == 1, false, p[0], p[1], eut, 20 + rng.intn(40)})
+				jobs = append(jobs, job{suites[rng.intn(len(suites))], rep%2 == 1, false, p[0], p[1], eut, 20 + rng.intn(40), 0})
 			}
 		}
 	}
@@ -660,14 +719,33 @@ func TestVerifC15E2E(t *testing.T) {
 	for rep := 0; rep < reps; rep++ {
 		for _, p := range [][2]int{{4, 4}, {1, 8}, {8, 0}, {0, 4}} {
 			for _, eut := range names {
-				jobs = append(jobs, job{suites[rng.intn(len(suites))], rep%2 == 1, true, p[0], p[1], eut, 20 + rng.intn(40)})
+				jobs = append(jobs, job{suites[rng.intn(len(suites))], rep%2 == 1, true, p[0], p[1], eut, 20 + rng.intn(40), 0})
+			}
+		}
+	}
+	// directed: late path_response while the candidate keeps sending (and the timely control)
+	dreps := 1
+	if vIsThorough() {
+		dreps = 10
+	}
+	for rep := 0; rep < dreps; rep++ {
+		for _, v13 := range []bool{false, true} {
+			for _, at := range []time.Duration{
+				900 * time.Millisecond, time.Second - 1, time.Second, 1200 * time.Millisecond,
+				1500 * time.Millisecond, 2500 * time.Millisecond,
+			} {
+				p := [][2]int{{4, 4}, {1, 8}, {8, 1}, {4, 1}, {8, 8}}[rng.intn(5)] // both sides receive an ID
+				jobs = append(jobs, job{
+					suite: suites[rng.intn(len(suites))], v13: v13, lc: p[0], ls: p[1],
+					eut: names[rng.intn(2)], directed: at,
+				})
 			}
 		}
 	}
 	for _, j := range jobs {
 		j := j
 		var res c15Case
-		vBubble(t, func(t *testing.T) { res = c15Run(t, rng, j.suite, j.v13, j.norrc, j.lc, j.ls, j.eut, j.n) })
+		vBubble(t, func(t *testing.T) { res = c15Run(t, rng, j.suite, j.v13, j.norrc, j.lc, j.ls, j.eut, j.n, j.directed) })
 		out.emit(res)
 	}
 }
